@@ -279,4 +279,21 @@ example : ((fileApplyChunk FileSt.init demo).map fun r => fileGet r.1 k1) = some
 example : fileApplyChunk FileSt.init [⟨2, 1, .noop⟩, ⟨2, 1, .noop⟩] = none := by decide
 example : rocksApplyChunk RocksSt.init [⟨2, 1, .noop⟩, ⟨2, 1, .noop⟩] = none := by decide
 
+/-! ## CAS laws of the reference semantics (continuation session, DESIGN.md 12.10) -/
+/-- a failed CAS changes nothing; a successful one is exactly a put (reference semantics both engines refine) -/
+theorem ref_cas_fail_is_noop (s : Store) (k : Key) (e : Option Val) (v : Val) (h : s k ≠ e) :
+    refStep s (.cas k e v) = (s, false) := by
+  simp [refStep, h]
+
+theorem ref_cas_success_is_put (s : Store) (k : Key) (e : Option Val) (v : Val) (t : Option Nat) (h : s k = e) :
+    (refStep s (.cas k e v)).1 = (refStep s (.put k v t)).1 := by
+  simp [refStep, h]
+
+/-- a CAS retried after it succeeded fails unless it was already a no-op (expected = new value): retrying a CAS
+    cannot apply it twice with effect -/
+theorem ref_cas_retry (s : Store) (k : Key) (e : Option Val) (v : Val) (h : s k = e) (hne : e ≠ some v) :
+    refStep (refStep s (.cas k e v)).1 (.cas k e v) = ((refStep s (.cas k e v)).1, false) := by
+  have : (s.set k (some v)) k ≠ e := by simpa [Store.set] using fun h' => hne h'.symm
+  simp [refStep, h, this]
+
 end DEngine.C22
